@@ -33,8 +33,20 @@ def write_if_changed(path, text):
         os.replace(tmp, path)
 
 
+def aborted(ctx, rows, what):
+    """the harness guard stopped a run that exceeded its time or memory budget: report what it was working on"""
+    for r in rows:
+        if "aborted" in r:
+            ctx.fail("harness_aborted_" + r["aborted"], {"while": what, "current": r.get("current", "")[:600]}, None,
+                     "the parser under test did not return / allocated without bound")
+            return True
+    return False
+
+
 def gen_fields(ctx, binp):
-    rc, rows, err = ctx.jsonl([binp, "fields", "-seed", "1", "-tier", ctx.tier], timeout=600)
+    rc, rows, err = ctx.jsonl([binp, "fields", "-seed", "1", "-tier", ctx.tier], timeout=900)
+    if aborted(ctx, rows, "fields probe"):
+        return []       # no table this run (the stale one stays); the searches below still run and look for a concrete input
     rows = [r for r in rows if "struct" in r]
     if rc != 0 or not rows:
         ctx.broken.append(("gen-table", "c08 fields failed: %s" % err[-600:]))
@@ -85,8 +97,9 @@ def run(ctx):
     # ---- searches
     for mode in ("seq", "inter", "reuse"):
         rc, rows, err = ctx.jsonl([binp, mode, "-seed", str(ctx.seed), "-tier", ctx.tier, "-n", n], timeout=2400)
+        ab = aborted(ctx, rows, mode)
         rows = [r for r in rows if "mode" in r]
-        if rc != 0 or not rows:
+        if (rc != 0 and not ab) or not rows:
             ctx.broken.append(("harness-run", "c08 %s failed rc=%d %s" % (mode, rc, err[-800:])))
             return
         for r in rows:
@@ -103,6 +116,7 @@ def run(ctx):
                 ctx.sample({"mode": "inter", "text": bytes.fromhex(r["hex"]).decode("utf-8", "replace")[:80], "lang": r["lang"], "stmts": r["nstmt"]})
     # ---- code leg: Interactive.v on recorded event traces vs the real callbacks
     rc, trows, err = ctx.jsonl([binp, "trace", "-seed", str(ctx.seed), "-tier", ctx.tier, "-n", "1500" if thorough else "150"], timeout=1200)
+    aborted(ctx, trows, "trace")
     trows = [r for r in trows if r.get("mode") == "trace"]
     mism = []
 
